@@ -6,6 +6,7 @@ import (
 	goSubtle "crypto/subtle"
 	"errors"
 	"io"
+	"slices"
 
 	"github.com/emmansun/gmsm/internal/bigmod"
 	"github.com/emmansun/gmsm/internal/byteorder"
@@ -275,8 +276,8 @@ func (priv *EncryptPrivateKey) NewKeyExchange(uid, peerUID []byte, keyLen int, g
 	ke.genSignature = genSignature
 	ke.keyLength = keyLen
 	ke.privateKey = priv
-	ke.uid = uid
-	ke.peerUID = peerUID
+	ke.uid = slices.Clone(uid) // the identities stay the caller's slices
+	ke.peerUID = slices.Clone(peerUID)
 	return ke
 }
 
@@ -313,7 +314,7 @@ func (ke *KeyExchange) InitKeyExchange(rand io.Reader, hid byte) ([]byte, error)
 		return nil, err
 	}
 	initKeyExchange(ke, hid, r)
-	return ke.secret, nil
+	return slices.Clone(ke.secret), nil
 }
 
 func (ke *KeyExchange) sign(isResponder bool, prefix byte) []byte {
@@ -370,7 +371,7 @@ func respondKeyExchange(ke *KeyExchange, hid byte, r *bigmod.Nat, rA []byte) ([]
 	if err != nil || !rP.IsOnCurve() {
 		return nil, nil, errors.New("sm9: invalid initiator's ephemeral public key")
 	}
-	ke.peerSecret = rA
+	ke.peerSecret = slices.Clone(rA)
 	pubA := ke.privateKey.GenerateUserPublicKey(ke.peerUID, hid)
 	ke.r = r
 	rBytes := r.Bytes(orderNat)
@@ -395,10 +396,10 @@ func respondKeyExchange(ke *KeyExchange, hid byte, r *bigmod.Nat, rA []byte) ([]
 	ke.g2 = g2
 
 	if !ke.genSignature {
-		return ke.secret, nil, nil
+		return slices.Clone(ke.secret), nil, nil
 	}
 
-	return ke.secret, ke.sign(true, 0x82), nil
+	return slices.Clone(ke.secret), ke.sign(true, 0x82), nil
 }
 
 // RespondKeyExchange when responder receive rA, for responder's step B1-B7
@@ -422,7 +423,7 @@ func (ke *KeyExchange) ConfirmResponder(rB, sB []byte) ([]byte, []byte, error) {
 		return nil, nil, errors.New("sm9: invalid responder's ephemeral public key")
 	}
 	// step 5
-	ke.peerSecret = rB
+	ke.peerSecret = slices.Clone(rB)
 	g1, err := ke.privateKey.EncryptMasterPublicKey.ScalarBaseMult(ke.r.Bytes(orderNat))
 	if err != nil {
 		return nil, nil, err
